@@ -26,6 +26,8 @@ RULE = ('case = reference dataset + 1-3 compared datasets of one shape (() to 3-
         'documented conventions + independent normal/Student law (vlib/dist.py). non-trivial = '
         '>= 2 compared bins with at least one compatible and one incompatible bin, or a special '
         'value (0/0, x/0, NaN, inf) in some bin; distinct = structural hash of the case')
+RULE_ADDENDA = (' Also: significance levels down to 1e-100; C / Fortran / strided / negative-stride memory layouts; integer-valued datasets stored as int32 / int64 (a third of the cases without special values); history clause: the same dataset objects compared again after an in-place change must agree with fresh datasets holding the same numbers.')
+RULE = RULE + RULE_ADDENDA
 ASSUMPTIONS = [
     'finite non-zero values and errors have magnitude in [1e-140, 1e140] (squares neither overflow '
     'nor underflow); errors are non-negative; ndf is None or an int >= 1; all datasets of a case '
